@@ -45,7 +45,7 @@ impl Shader for AnyShader {
 }
 
 // ------------------------------------------------------------------ row procs (C02 #3, C03 #3)
-// @ob id=K.blend_row_mask props=C02,C03 kind=bounded:len<=3 tier=quick timeout=300 fns=blend_row_mask assumes="lerp replaced by an arbitrary function (no kernel fact needed)"
+// @ob id=K.blend_row_mask props=C02,C03,C18 kind=bounded:len<=3 tier=quick timeout=300 fns=blend_row_mask assumes="lerp replaced by an arbitrary function (no kernel fact needed)"
 // @+ desc="blend_row_mask::<T> for any T: touches exactly min(len) leading pixels; pixel i becomes lerp(d_i, T::blend(s_i,d_i), a256(mask_i)); a pixel whose mask byte is 0 is bit-identical afterwards"
 #[kani::proof]
 #[kani::unwind(8)]
@@ -79,7 +79,7 @@ fn k_blend_row_mask() {
     kani::cover!(n == 3 && mask[1] == 0 && mask[2] == 255);
 }
 
-// @ob id=K.blend_row_mask_clip props=C02,C03,C05 kind=bounded:len<=3 tier=quick timeout=300 fns=blend_row_mask_clip assumes="alpha_lerp replaced by an arbitrary function satisfying K.alpha_lerp_zero (proved on the real kernel)"
+// @ob id=K.blend_row_mask_clip props=C02,C03,C05,C18 kind=bounded:len<=3 tier=quick timeout=300 fns=blend_row_mask_clip assumes="alpha_lerp replaced by an arbitrary function satisfying K.alpha_lerp_zero (proved on the real kernel)"
 // @+ desc="blend_row_mask_clip::<T> for any T: touches exactly min(len) leading pixels; pixel i becomes alpha_lerp(d_i, T::blend(s_i,d_i), mask_i, clip_i); zero mask or zero clip byte keeps the pixel bit-identical"
 #[kani::proof]
 #[kani::unwind(8)]
@@ -115,7 +115,7 @@ fn k_blend_row_mask_clip() {
     kani::cover!(n == 3 && mask[1] == 0 && clip[2] == 0);
 }
 
-// @ob id=K.blend_row props=C02,C03,C14,C15 kind=bounded:len<=3 tier=quick timeout=300 fns=blend_row
+// @ob id=K.blend_row props=C02,C03,C14,C15,C18 kind=bounded:len<=3 tier=quick timeout=300 fns=blend_row
 // @+ desc="blend_row::<T> for any T: touches exactly min(src.len, dst.len) leading pixels; pixel i becomes T::blend(s_i, d_i)"
 #[kani::proof]
 #[kani::unwind(8)]
@@ -1303,4 +1303,101 @@ fn k_apply_path_transform() {
         i += 1;
     }
     kani::cover!(n0 == 3);
+}
+
+// ------------------------------------------------------------------ end to end through the real rasteriser (C01, C14 #2) -- thorough
+// @ob id=K.fill_rect_mask_e2e props=C01,C14 kind=bounded:surface=2x2,rect-in[-1,3] tier=thorough timeout=3000 fns=DrawTarget::fill,DrawTarget::apply_path,Rasterizer::add_edge,Rasterizer::rasterize,MaskSuperBlitter::blit_span
+// @+ desc="end to end through the REAL path replay, edge set-up, scan conversion and supersampling blitter (only composite is a recorder): filling PathBuilder::rect(x,y,w,h) with integer x,y in [-1,2], w,h in [1,3] on a 2x2 surface hands composite a coverage mask that is 255 exactly on the rectangle ∩ surface (64+64+64+63 per fully covered pixel) and 0 elsewhere inside the mask rect, and a mask rect that contains the rectangle ∩ surface"
+#[kani::proof]
+#[kani::unwind(12)]
+#[kani::stub(DrawTarget::composite, composite_mask_rec)]
+#[kani::stub(DrawTarget::quad_to, quad_to_rec)]
+#[kani::stub(DrawTarget::cubic_to, cubic_to_rec)]
+fn k_fill_rect_mask_e2e() {
+    let mut dt = DrawTarget::new(2, 2);
+    let (x, y, w, h): (i8, i8, i8, i8) = (kani::any(), kani::any(), kani::any(), kani::any());
+    kani::assume(x >= -1 && x <= 2 && y >= -1 && y <= 2 && w >= 1 && w <= 3 && h >= 1 && h <= 3);
+    let mut pb = PathBuilder::new();
+    pb.rect(x as f32, y as f32, w as f32, h as f32);
+    let path = pb.finish();
+    unsafe { MASK_N = 0; }
+    dt.fill(&path, &Source::Solid(SolidSource { r: 255, g: 255, b: 255, a: 255 }), &DrawOptions::new());
+    let (x0, y0, x1, y1) = ((x as i32).max(0), (y as i32).max(0), (x as i32 + w as i32).min(2), (y as i32 + h as i32).min(2));
+    let n = unsafe { MASK_N };
+    if x0 >= x1 || y0 >= y1 {
+        // nothing of the rectangle is on the surface: either no composite or an all-zero mask
+        if n == 1 { let mut i = 0; while i < 4 { assert!(unsafe { MASK_COPY[i] } == 0 || i >= unsafe { MASK_LEN }, "off-surface rectangle covers nothing"); i += 1; } }
+    } else {
+        assert!(n == 1, "one composite");
+        let mr = unsafe { MASK_RECT };
+        assert!(mr.min.x <= x0 && mr.min.y <= y0 && mr.max.x >= x1 && mr.max.y >= y1 && mr.min.x >= 0 && mr.min.y >= 0 && mr.max.x <= 2 && mr.max.y <= 2, "mask rect contains the visible rectangle and lies on the surface");
+        let mw = mr.max.x - mr.min.x;
+        let mut py = 0;
+        while py < 2 {
+            let mut px = 0;
+            while px < 2 {
+                if px >= mr.min.x && px < mr.max.x && py >= mr.min.y && py < mr.max.y {
+                    let v = unsafe { MASK_COPY[((py - mr.min.y) * mw + (px - mr.min.x)) as usize] };
+                    let inside = px >= x0 && px < x1 && py >= y0 && py < y1;
+                    assert!(v == if inside { 255 } else { 0 }, "coverage 255 exactly on the rectangle, 0 elsewhere");
+                }
+                px += 1;
+            }
+            py += 1;
+        }
+    }
+    kani::cover!(n == 1 && x == -1 && w == 2);
+    kani::cover!(n == 1 && x0 == 1 && y0 == 1);
+}
+pub static mut MASK_COPY: [u8; 5] = [0; 5];
+pub static mut MASK_LEN: usize = 0;
+pub static mut MASK_N: usize = 0;
+pub static mut MASK_RECT: IntRect = ZR;
+fn composite_mask_rec<Backing: AsRef<[u32]> + AsMut<[u32]>>(_dt: &mut DrawTarget<Backing>, _src: &Source, mask: Option<&[u8]>, mask_rect: IntRect, _rect: IntRect, _blend: BlendMode, _alpha: f32) {
+    unsafe {
+        MASK_N += 1;
+        MASK_RECT = mask_rect;
+        if let Some(m) = mask {
+            MASK_LEN = m.len();
+            let mut i = 0;
+            while i < 5 { if i < m.len() { MASK_COPY[i] = m[i]; } i += 1; }
+        }
+    }
+}
+
+// ------------------------------------------------------------------ quads -> monotonic curve edges (C08 #2)
+// @ob id=K.add_quad props=C08,C07 kind=complete tier=quick timeout=1200 fns=DrawTarget::add_quad,DrawTarget::quad_to
+// @+ desc="add_quad for finite control points in ±4000: every curve edge handed to the rasteriser is monotonic in y (control y between the end points' y); a quad that is already monotonic is passed through bit for bit; a non-monotonic quad is either chopped at its y-extremum into two halves that share the split point, keep the original end points bit for bit and have their control points level with the split point, or (no usable split parameter) keeps its end points and control x and has its control y snapped to the NEARER end point's y -- the control point never moves further than needed; no debug assertion fires"
+#[kani::proof]
+#[kani::unwind(10)]
+#[kani::stub(Rasterizer::add_edge, add_edge_rec)]
+fn k_add_quad() {
+    let v: [f32; 6] = kani::any();
+    let mut i = 0;
+    while i < 6 { kani::assume(v[i].is_finite() && v[i] >= -4000. && v[i] <= 4000.); i += 1; }
+    let curve = [Point::new(v[0], v[1]), Point::new(v[2], v[3]), Point::new(v[4], v[5])];
+    let (a, b, c) = (v[1], v[3], v[5]);
+    let mut dt = DrawTarget::new(CW, CH);
+    edges_reset();
+    dt.add_quad(curve);
+    let (e, n) = edges_snapshot();
+    let bits = |x: f32| x.to_bits();
+    let between = |lo: f32, m: f32, hi: f32| (lo <= m && m <= hi) || (hi <= m && m <= lo);
+    assert!(n == 1 || n == 2, "one edge, or two for a chopped quad");
+    let mono_in = (a < b && b <= c) || (a > b && b >= c);
+    if n == 1 {
+        assert!(e[0].curve && bits(e[0].sx) == bits(v[0]) && bits(e[0].sy) == bits(v[1]) && bits(e[0].ex) == bits(v[4]) && bits(e[0].ey) == bits(v[5]) && bits(e[0].cx) == bits(v[2]), "end points and control x preserved");
+        assert!(between(a, e[0].cy, c), "edge monotonic in y");
+        if mono_in { assert!(bits(e[0].cy) == bits(b), "monotonic quad passed through unchanged"); }
+        else { assert!((e[0].cy == a || e[0].cy == c) && (e[0].cy - b).abs() <= (a - b).abs() && (e[0].cy - b).abs() <= (c - b).abs(), "control y snapped to the nearer end point"); }
+    } else {
+        assert!(!mono_in, "only non-monotonic quads are chopped");
+        assert!(e[0].curve && e[1].curve, "curve edges");
+        assert!(bits(e[0].sx) == bits(v[0]) && bits(e[0].sy) == bits(v[1]) && bits(e[1].ex) == bits(v[4]) && bits(e[1].ey) == bits(v[5]), "original end points preserved");
+        assert!(bits(e[0].ex) == bits(e[1].sx) && bits(e[0].ey) == bits(e[1].sy), "halves share the split point");
+        assert!(e[0].cy == e[0].ey && e[1].cy == e[1].sy, "control points level with the split point: each half monotonic");
+    }
+    kani::cover!(n == 2);
+    kani::cover!(n == 1 && !mono_in);
+    kani::cover!(n == 1 && mono_in);
 }
